@@ -30,7 +30,11 @@ class LatticeInput(CellModifierInput):
         if self.in_cell_block:
             if key:
                 try:
-                    val = value["data"][0]
+                    val = value["data"]
+                    if isinstance(val, syntax_node.ListNode):
+                        val = val[0]
+                    if not isinstance(val, syntax_node.ValueNode):
+                        raise ValueError("Cell Lattice must be 1 or 2")
                     val._convert_to_int()
                     val._convert_to_enum(Lattice, int)
                 except ValueError as e:
@@ -41,6 +45,8 @@ class LatticeInput(CellModifierInput):
             words = self.data
             for word in words:
                 try:
+                    if not isinstance(word, syntax_node.ValueNode):
+                        raise ValueError("not a number")
                     word._convert_to_int()
                     word._convert_to_enum(Lattice, int)
                     self._lattice.append(word)
